@@ -954,8 +954,10 @@ class IteratorProxy(BaseProxy):
         return self._callmethod('close', args)
 
 
-@add_proxy_methods('__getattribute__')
 class NamespaceProxy(BaseProxy):
+    # Do not define `__getattribute__` on the proxy itself (e.g. via `add_proxy_methods`):
+    # it would intercept every attribute access of the proxy object, including `_callmethod`,
+    # and recurse infinitely. `__getattr__` below forwards the public attributes.
     def __getattr__(self, key):
         if key[0] == '_':
             return object.__getattribute__(self, key)
